@@ -101,21 +101,18 @@ Theorem C06_mask_exact e found m cs p :
 Proof. exact (mask_exact e found m cs p). Qed.
 Print Assumptions C06_mask_exact.
 
-(* (d) the input's own byte(): eager = initial byte + consumed, lazy = consumed *)
-Theorem C06_refuted_lazy_byte : exists input p0, eager_byte (mkcur input p0) <> lazy_byte input (mkcur input p0).
-Proof. exact byte_refuted. Qed.
-Print Assumptions C06_refuted_lazy_byte.
-Theorem C06_byte_partial ch input p0 c' :
-  adv (PTr ch) (mkcur input p0) c' -> eager_byte c' = pbyte p0 + lazy_byte input c'.
-Proof. exact (byte_partial ch input p0 c'). Qed.
-Print Assumptions C06_byte_partial.
+(* (d) the input's own byte(): eager = lazy = initial byte + consumed (defect repaired by /repo e0cf8e4: recorded as fixed) *)
+Theorem C06_byte_lazy_eq_eager ch input p0 c' :
+  adv (PTr ch) (mkcur input p0) c' -> eager_byte c' = lazy_byte p0 input c'.
+Proof. exact (byte_lazy_eq_eager ch input p0 c'). Qed.
+Print Assumptions C06_byte_lazy_eq_eager.
 
-(* (e) rematch under lazy tracking: the inner lazy input starts at 0:1:1 *)
-Theorem C06_refuted_lazy_rematch :
-  exists ch p0 pre span k,
-    lazy_position ch pos0 span k <> lazy_position ch p0 (pre ++ span) (length pre + k).
-Proof. exact refuted_lazy_rematch. Qed.
-Print Assumptions C06_refuted_lazy_rematch.
+(* (e) rematch under lazy tracking: positions inside the rematched span are absolute (defect repaired by /repo 1d941ee) *)
+Theorem C06_lazy_rematch_absolute ch p0 pre span post k :
+  (k <= length span)%nat ->
+  rematch_inner_lazy_position ch p0 pre span k = lazy_position ch p0 (pre ++ span ++ post) (length pre + k).
+Proof. exact (lazy_rematch_absolute ch p0 pre span post k). Qed.
+Print Assumptions C06_lazy_rematch_absolute.
 
 (* ---------- the hypotheses are satisfiable by a non-trivial table / input ---------- *)
 Example C06_example_table_ok : table_ok (ceol C_ex) G_ex.
